@@ -18,7 +18,9 @@ import time
 import traceback
 import warnings
 
-MAX_VIOLATIONS_PER_TALLY = 40
+MAX_PER_SIGNATURE = 3
+MAX_SIGNATURES = 300
+OVERFLOW_KEY = '{"kind": "signature-overflow"}'
 MAX_SAMPLES_PER_TALLY = 3
 
 
@@ -67,7 +69,8 @@ class Tally:
         self.programs = 0
         self.outcomes = collections.Counter()
         self.extra = collections.Counter()
-        self.violations: list[Violation] = []
+        self.by_sig: dict[str, list[Violation]] = {}   # signature -> a few representative violations
+        self.sig_counts = collections.Counter()
         self.n_violations = 0
         self.samples = []
         self.notes = []
@@ -75,9 +78,20 @@ class Tally:
 
     def violation(self, sig, case, expected=None, observed=None, note=""):
         self.n_violations += 1
-        if len(self.violations) < MAX_VIOLATIONS_PER_TALLY:
-            self.violations.append(Violation(sig=jsonable(sig), case=jsonable(case), expected=jsonable(expected),
-                                             observed=jsonable(observed), note=note))
+        sig = jsonable(sig)
+        key = json.dumps(sig, sort_keys=True)
+        self.sig_counts[key] += 1
+        if key not in self.by_sig and len(self.by_sig) >= MAX_SIGNATURES:
+            key = OVERFLOW_KEY  # too many distinct signatures: keep an explicit overflow bucket (never matched as known)
+            sig = {"kind": "signature-overflow"}
+        bucket = self.by_sig.setdefault(key, [])
+        if len(bucket) < MAX_PER_SIGNATURE:
+            bucket.append(Violation(sig=sig, case=jsonable(case), expected=jsonable(expected),
+                                    observed=jsonable(observed), note=note))
+
+    @property
+    def violations(self):
+        return [v for vs in self.by_sig.values() for v in vs]
 
     def sample(self, s):
         if len(self.samples) < MAX_SAMPLES_PER_TALLY:
@@ -93,9 +107,14 @@ class Tally:
         self.outcomes.update(other.outcomes)
         self.extra.update(other.extra)
         self.n_violations += other.n_violations
-        for v in other.violations:
-            if len(self.violations) < 400:
-                self.violations.append(v)
+        self.sig_counts.update(other.sig_counts)
+        for key, vs in other.by_sig.items():
+            if key not in self.by_sig and len(self.by_sig) >= MAX_SIGNATURES:
+                key = OVERFLOW_KEY
+            bucket = self.by_sig.setdefault(key, [])
+            for v in vs:
+                if len(bucket) < MAX_PER_SIGNATURE:
+                    bucket.append(v if key != OVERFLOW_KEY else Violation({**v, "sig": {"kind": "signature-overflow"}}))
         for s in other.samples:
             if len(self.samples) < 8:
                 self.samples.append(s)
